@@ -142,6 +142,45 @@ fn paren_variants(t: &Ast, ops: &OpSet) -> Vec<(String, String)> {
     out
 }
 
+fn deep_layouts(out: &mut WorkerOut) {
+    let grid = [0usize, 1, 8, 31, 32, 33, 64, 100];
+    let tails = ["x + 1", "f(x , [y])", "- x ++", "c ? x : y"];
+    for k in grid {
+        let prefix: String = (0..k).map(|i| format!("v{} ++ ; ", i)).collect();
+        for tail in tails {
+            let plain = format!("{}{}", prefix, tail);
+            let base = match engine::parse(&plain) {
+                Res::Ok(a) => a,
+                _ => continue,
+            };
+            for m in grid {
+                out.evals += 1;
+                out.count("transitions", 1);
+                let wrapped = format!("{}{}", prefix, tail.replacen('x', &format!("{}x{}", "(".repeat(m), ")".repeat(m)), 1));
+                let spaced = plain.replace(' ', &" \t\r\n".repeat(m.max(1) * 3 / 4 + 1));
+                for (what, v) in [("parens", wrapped), ("whitespace", spaced)] {
+                    match engine::parse(&v) {
+                        Res::Ok(a) if a == base => {
+                            out.outcomes.insert("same".into());
+                            out.count("validated", 1);
+                        }
+                        other => {
+                            let class = |n: usize| if n >= 31 { ">=31" } else { "<31" };
+                            out.fail(
+                                format!("deep-{}:changes-parse:postfix-statements{}:multiplicity{}", what, class(k), class(m)),
+                                format!("deep|{} earlier postfix statements, {} x{} in {:?}", k, what, m, tail),
+                                format!("the plain program is accepted; this layout gives {:?}", other.class()),
+                            );
+                        }
+                    }
+                }
+            }
+        }
+    }
+    out.nontrivial.insert(hash64("deep"));
+    out.count("states", 1);
+}
+
 impl Prop for C11 {
     fn id(&self) -> &'static str {
         "C11"
@@ -158,6 +197,13 @@ impl Prop for C11 {
                     what: "for every program: every token boundary x every whitespace string of the tier (quick: 4 singles + 4 pairs; thorough: all 20 over {sp,tab,CR,LF}^{1,2}) (one boundary at a time; existing whitespace replaced), all boundaries at once, leading and trailing".into(),
                 },
                 Stage {
+                    name: "deep".into(),
+                    len: 1,
+                    chunk: 1,
+                    timeout: Duration::from_secs(300),
+                    what: "grid of (number of earlier postfix statements, paren multiplicity) and very long whitespace runs".into(),
+                },
+                Stage {
                     name: "parens".into(),
                     len: n,
                     chunk: (n / 20).max(200),
@@ -165,7 +211,7 @@ impl Prop for C11 {
                     what: "for every program: every subexpression wrapped in 1..3 redundant pairs, and every pair of subexpressions wrapped once".into(),
                 },
             ],
-            rule: "programs = the shared tree set (<= 3 operator nodes over every node kind; string literals containing spaces, parentheses and a double quote), restricted to those the engine parses to the generator's tree; \
+            rule: "stage 'deep': k postfix statements followed by an operand wrapped in m redundant pairs, and runs of 300 whitespace characters, for k, m in {0,1,8,31,32,33,64,100} (capacity effects; engine against engine). programs = the shared tree set (<= 3 operator nodes over every node kind; string literals containing spaces, parentheses and a double quote), restricted to those the engine parses to the generator's tree; \
                    oracle = AST equality with the parse of the original text; non-trivial = >= 1 operator node, distinct = distinct program (each is re-laid-out in all the ways counted under evaluations)"
                 .into(),
             assumptions: vec!["token boundaries come from the reference lexer, which C10 checks against the engine".into()],
@@ -176,6 +222,11 @@ impl Prop for C11 {
     }
     fn run(&self, tier: Tier, stage: usize, a: u64, b: u64, out: &mut WorkerOut) {
         let ops = OpSet::builtin();
+        if stage == 1 {
+            deep_layouts(out);
+            return;
+        }
+        let stage = if stage == 2 { 1 } else { stage };
         let progs = programs(tier);
         let wss = ws_strings(tier);
         for i in a..b {
@@ -226,6 +277,37 @@ impl Prop for C11 {
                     for w in &wss {
                         let variant = format!("{}{}{}", &text[..lo], w, &text[hi..]);
                         check(&variant, format!("{}:{}", class, ws_name(w)), out);
+                    }
+                }
+                // the other direction: a boundary whose whitespace is not needed to keep the tokens
+                // apart. The compact text is itself an accepted program (same tokens by the
+                // reference lexer), and the original is that program with whitespace added.
+                let same_tokens = |v: &str| match lex(v, &ops) {
+                    Ok(t2) => t2.len() == toks.len() && t2.iter().zip(&toks).all(|(x, y)| x.kind == y.kind && x.text == y.text),
+                    Err(_) => false,
+                };
+                let mut compact = String::new();
+                for (k, t) in toks.iter().enumerate() {
+                    if k > 0 {
+                        let glued = format!("{}{}", compact, &text[t.start..t.end]);
+                        let rest: String = toks[k + 1..].iter().map(|x| format!(" {}", &text[x.start..x.end])).collect();
+                        if !same_tokens(&format!("{}{}", glued, rest)) {
+                            compact.push(' ');
+                        }
+                    }
+                    compact.push_str(&text[t.start..t.end]);
+                }
+                if same_tokens(&compact) && compact != text {
+                    check(&compact, "all-removable-whitespace-removed".to_string(), out);
+                }
+                for bi in 1..toks.len() {
+                    let (lo, hi) = (toks[bi - 1].end, toks[bi].start);
+                    if lo < hi {
+                        let variant = format!("{}{}", &text[..lo], &text[hi..]);
+                        if same_tokens(&variant) {
+                            let class = class_of_boundary(Some(toks[bi - 1].kind), Some(toks[bi].kind));
+                            check(&variant, format!("{}:removed", class), out);
+                        }
                     }
                 }
                 // all boundaries at once, one whitespace string each time
